@@ -488,4 +488,54 @@ theorem ninv_of_init {y : Sys} (hi : Init y) (hl : y.s.locked = []) (ho : y.s.lo
     by rw [hj]; intro jo h; simp at h, by rw [hc, hl]; rfl, by rw [ho]; intro o h; simp at h,
     by rw [ho]; exact List.nodup_nil⟩
 
+/-! ### with nothing to re-issue every issue is a fresh one -/
+
+theorem sysStepJ_fresh {y y' : Sys} {ev : Ev} {oj : Option (Job × List Draw)}
+    (h0 : y.s.locked0 = []) (h : sysStepJ y ev = .ok (y', oj)) :
+    y'.s.locked0 = [] ∧ (oj ≠ none → (tagOf y.s y'.s).2 = true) := by
+  have key : ∀ (sb : St) (job : Job), sb.spawned = y.s.spawned →
+      Issue sb y'.s job.picked sb.spawned true → (tagOf y.s y'.s).2 = true := by
+    intro sb job e1 hi
+    rcases hi.kind with ⟨_, _, h3, _⟩ | ⟨hf, _⟩
+    · unfold tagOf
+      rw [h3, e1]
+      simp
+    · exact absurd hf (by simp)
+  cases ev with
+  | start o saved =>
+    obtain ⟨s1, job, ds, _, ⟨q, _, _⟩, hprep, _, _, _⟩ := sysStepJ_start h
+    obtain ⟨hi, hl, _⟩ := prep_fresh hprep (by rw [q.locked0, h0])
+    exact ⟨hl, fun _ => key s1 job q.spawned hi⟩
+  | initDone =>
+    obtain ⟨_, ⟨q, _, _⟩, _, hoj⟩ := sysStepJ_initDone h
+    exact ⟨by rw [q.locked0, h0], fun hne => absurd hoj hne⟩
+  | step k status newW o =>
+    obtain ⟨job, s2, _, hmid, hrest⟩ := sysStepJ_step h
+    obtain ⟨_, _, _, _, m3, _, m5, _⟩ := midState_spec hmid
+    rcases hrest with ⟨job', ds, hprep, _, _⟩ | ⟨hs, _, hoj⟩
+    · obtain ⟨hi, hl, _⟩ := prep_fresh hprep (by rw [m5, h0])
+      exact ⟨hl, fun _ => key s2 job' m3 hi⟩
+    · exact ⟨by rw [hs, m5, h0], fun hne => absurd hoj hne⟩
+
+theorem ghost_all_fresh : ∀ (evs : List Ev) {y : Sys}, y.s.locked0 = [] →
+    ∀ e ∈ ghost y evs, e.fresh = true := by
+  intro evs
+  induction evs with
+  | nil => intro y _ e he; simp [ghost] at he
+  | cons ev rest ih =>
+    intro y h0 e he
+    simp only [ghost] at he
+    split at he
+    · simp at he
+    rename_i y1 oj hj
+    obtain ⟨hl, hf⟩ := sysStepJ_fresh h0 hj
+    rcases List.mem_append.mp he with hm | hm
+    · cases oj with
+      | none => simp at hm
+      | some jd =>
+        simp only [Option.toList_some, List.map_cons, List.map_nil, List.mem_singleton] at hm
+        rw [hm]
+        exact hf (by simp)
+    · exact ih hl e hm
+
 end Infretis.Repex
